@@ -34,7 +34,7 @@ func (prop) Assumptions() []string {
 	return []string{
 		"tag values are non-empty and field sets non-empty (line protocol cannot express otherwise); NaN/Inf floats are not recorded (neither format can express them, the writer reports an error)",
 		"measurement names and tag values do not end with a backslash: InfluxDB's own line-protocol encoder (a dependency) cannot express them",
-		"services/replay (files on disk, HTTP API) is not executed here; the byte formats and the replay engines are",
+		"the replay service is driven through its HTTP API with the fast clock only; the real-time clock would make a replay last as long as the recording",
 	}
 }
 func (prop) MinNontrivial(tier string) int {
@@ -56,6 +56,15 @@ func (prop) Cases(tier string, seed uint64) []core.Case {
 	}
 	for i := 0; i < nb; i++ {
 		cs = append(cs, core.Case{ID: fmt.Sprintf("batch-%d", i), Kind: "batch", Seed: seed*9001 + uint64(i), N: per})
+	}
+	nsv, persv := 8, 6
+	if tier == "thorough" {
+		nsv, persv = 120, 10
+	}
+	for i := 0; i < nsv; i++ {
+		for _, mode := range []string{"stream", "batch", "query"} {
+			cs = append(cs, core.Case{ID: fmt.Sprintf("service-%s-%d", mode, i), Kind: "service", Seed: seed*9007 + uint64(i)*3 + uint64(len(mode)), N: persv, Params: map[string]interface{}{"mode": mode}})
+		}
 	}
 	return cs
 }
@@ -179,9 +188,12 @@ func (s *batchRec) Close() error { s.mu.Lock(); s.closed++; s.mu.Unlock(); retur
 func (prop) Run(x *core.Ctx) {
 	r := core.NewRng(x.Case.Seed, 18)
 	for i := 0; i < x.Case.N; i++ {
-		if x.Case.Kind == "stream" {
+		switch x.Case.Kind {
+		case "stream":
 			runStream(x, r, i)
-		} else {
+		case "service":
+			runService(x, r, i)
+		default:
 			runBatch(x, r, i)
 		}
 		if x.NumViolations() > 100 {
